@@ -1,6 +1,43 @@
-//! linalg operations (stub; filled in by the area owner).
+//! C18: exact rational linear algebra (number-theory-linear: determinant, matrix::inv,
+//! solve_linear_system, subspace::{iim, supplement_basis, image_mod_p},
+//! triangular::mul_inv_from_right_exact).
+//! Results: Result<_, _> is encoded as [ok v] | [err] | [err <variant>].
 use crate::term::*;
+use number_theory_linear::subspace::{self, IIMError};
+use number_theory_linear::{determinant, matrix, solve_linear_system, triangular};
 
-pub fn dispatch(_op: &str, _a: &[Term]) -> Option<Term> {
-    None
+fn ok(t: Term) -> Term {
+    tl(vec![tid("ok"), t])
+}
+fn err() -> Term {
+    tl(vec![tid("err")])
+}
+
+pub fn dispatch(op: &str, a: &[Term]) -> Option<Term> {
+    Some(match op {
+        "la_det" => tr(&determinant(&a[0].rmat())),
+        "la_inv" => match matrix::inv(&a[0].rmat()) {
+            Ok(b) => ok(trmat(&b)),
+            Err(_) => err(),
+        },
+        "la_solve" => match solve_linear_system(&a[0].rmat(), &a[1].rats()) {
+            Ok(x) => ok(trats(&x)),
+            Err(_) => err(),
+        },
+        "la_iim" => match subspace::iim(&a[0].rmat(), &a[1].rmat()) {
+            Ok(x) => ok(trmat(&x)),
+            Err(IIMError::LinearlyDependent) => tl(vec![tid("err"), tid("dependent")]),
+            Err(IIMError::NotInImage) => tl(vec![tid("err"), tid("notinimage")]),
+        },
+        "la_supp" => match subspace::supplement_basis(&a[0].rmat()) {
+            Ok(b) => ok(trmat(&b)),
+            Err(_) => err(),
+        },
+        "la_image" => timat(&subspace::image_mod_p(&a[0].imat(), &a[1].int())),
+        "la_mulinv" => match triangular::mul_inv_from_right_exact(&a[0].imat(), &a[1].imat()) {
+            Ok(c) => ok(timat(&c)),
+            Err(_) => err(),
+        },
+        _ => return None,
+    })
 }
